@@ -1,6 +1,7 @@
 package keyproof
 
 import (
+	"reflect"
 	"strings"
 
 	"github.com/privacybydesign/gabi/big"
@@ -126,6 +127,34 @@ func (s *pedersenStructure) fakeProof(g zkproof.Group) PedersenProof {
 
 func (s *pedersenStructure) verifyProofStructure(proof PedersenProof) bool {
 	return proof.Commit != nil && proof.Hresult.verifyStructure() && proof.Sresult.verifyStructure()
+}
+
+// pedersenCommitmentsInGroup reports whether the commitments of all PedersenProofs contained in v
+// (a proof struct, possibly containing nested proofs and slices of proofs) are nonzero modulo the
+// group prime, i.e. are elements of the multiplicative group.
+func pedersenCommitmentsInGroup(v reflect.Value, g zkproof.Group) bool {
+	switch v.Kind() {
+	case reflect.Struct:
+		if p, ok := v.Interface().(PedersenProof); ok {
+			return p.Commit != nil && new(big.Int).Mod(p.Commit, g.P).Sign() != 0
+		}
+		for i := 0; i < v.NumField(); i++ {
+			if v.Type().Field(i).IsExported() && !pedersenCommitmentsInGroup(v.Field(i), g) {
+				return false
+			}
+		}
+	case reflect.Slice, reflect.Array:
+		for i := 0; i < v.Len(); i++ {
+			if !pedersenCommitmentsInGroup(v.Index(i), g) {
+				return false
+			}
+		}
+	case reflect.Ptr, reflect.Interface:
+		if !v.IsNil() {
+			return pedersenCommitmentsInGroup(v.Elem(), g)
+		}
+	}
+	return true
 }
 
 func (s *pedersenStructure) commitmentsFromProof(g zkproof.Group, list []*big.Int, challenge *big.Int, proof PedersenProof) []*big.Int {
